@@ -320,3 +320,18 @@ def crash_site(mode, tname, cc, enc, data):
         f = frames[-1] if frames else None
         return type(e).__name__, (f.name if f else "?")
     return None
+
+
+def impl_stream_objs(data):
+    """events_to_objs over the events of a strict stream decode: one canonical object per message"""
+    from tpmstream.common.object import events_to_objs
+    from tpmstream.spec.commands import CommandResponseStream
+    try:
+        events = list(Binary.marshal(tpm_type=CommandResponseStream, buffer=bytes(data), abort_on_error=True))
+        out = []
+        for o in events_to_objs(events):
+            cc = getattr(o, "commandCode", None) if type(o).__name__ == "Command" else getattr(o, "_command_code", None)
+            out.append(f"O {type(o).__name__} cc={cc_str(cc)} {obj_str(o)}")
+        return out
+    except Exception as e:  # noqa
+        return [f"O crash {type(e).__name__}"]
